@@ -24,7 +24,7 @@ def run(ctx):
     res = _merge(r1, r2)
     import random
     import pycode  # translator validation: generated Lean definitions vs the real functions (harness/pycode.py)
-    pycode.check(res, random.Random(ctx["seed"] * 7919 + 77), ctx["tier"], ["uid", "params", "schedule", "structparams"])
+    pycode.check(res, random.Random(ctx["seed"] * 7919 + 77), ctx["tier"], ["uid", "params", "schedule", "structparams", "sensors"])
     # every decodable kind under every decoding context (no device / thermostat count / schema / product type) and at the
     # device level (handled twice, by two devices, after the device's data changed): harness/c05_ctx.py, Props/C05Ctx.lean
     import c05_ctx
